@@ -5,6 +5,7 @@ import (
 	"encoding/xml"
 	"errors"
 	"fmt"
+	"io"
 	"strings"
 	"time"
 
@@ -22,7 +23,7 @@ import (
 
 type req struct {
 	kind, typ, id, from, to, payload string
-	xmlns string // "" = inherited from the stream, else declared on the element
+	xmlns                            string // "" = inherited from the stream, else declared on the element
 }
 
 func (r req) doc() string {
@@ -54,7 +55,7 @@ var froms = []string{"", "juliet@example.com/balcony", "me@example.net", "@@bad"
 var tos = []string{"", "me@example.net/res"}
 var payloads = []string{"", `<q xmlns='urn:q'/>`, `<iq xmlns='urn:q' id='a' type='result'/>`, `text`, `<other xmlns='urn:other'><q xmlns='urn:q'/></other>`}
 
-const nPrograms = 17
+const nPrograms = 18
 
 // program writes to the encoder per the chosen behaviour; returns how many
 // matching replies (top-level iq, type result|error, request id) it wrote and
@@ -134,6 +135,12 @@ func program(p int, t xmlstream.TokenReadEncoder, r req) (matching int, herr err
 		t.EncodeToken(w)
 		t.EncodeToken(w.End())
 		iq("-", r.id)
+	}
+	if p == 17 {
+		// fails with an error that wraps io.EOF (eg. a decoder that ran out of
+		// input inside the payload): an error like any other, not the peer's
+		// closing tag
+		herr = fmt.Errorf("handler: payload truncated: %w", io.EOF)
 	}
 	switch p {
 	case 15, 16: // the reply is written through the encoder's value methods
